@@ -39,6 +39,21 @@ func genC15(tier string, seed int64) []Case {
 		return thorough
 	}
 	take("C06", pick(2, 1))
+	// the C06 scenarios in which a refused error report precedes the real fault, all of them
+	if gen := registry["C06"]; gen != nil {
+		have := map[string]bool{}
+		for _, cs := range cases {
+			have[cs.ID] = true
+		}
+		for _, cs := range gen(tier, seed) {
+			if strings.Contains(cs.ID, "/refused-report") && !have["C15:"+cs.ID] {
+				cs := cs
+				cs.Class = "C06:" + cs.Class
+				cs.ID = "C15:" + cs.ID
+				cases = append(cases, cs)
+			}
+		}
+	}
 	take("C05", pick(3, 1))
 	take("C09", pick(4, 1))
 	take("C03", pick(40, 12))
